@@ -147,6 +147,176 @@ void h(void) {
                   note="UNBOUNDED in n: coverage of the Hessenberg part by the norm that decides the zero-matrix exit and the deflation floor")]
 
 
+# ------------------------------------------------------------------ UpperHessenbergEigen::doComputeEigenvectors
+def eigenvectors_backsubst(report):
+    """The back substitution that turns the quasi-triangular T into eigenvectors (port of EISPACK hqr2): every coefficient, row/column segment, tail, block
+    and product in it is inside the size x size matrices for EVERY eigenvalue pattern (including NaN and unpaired imaginary parts - index safety does not rest
+    on the pairing invariant), the scale `norm` covers the whole upper Hessenberg part, the loops terminate.  Values are not modelled."""
+    f = X.locate(EH, "doComputeEigenvectors", cls="UpperHessenbergEigen")
+    defs = r"""
+typedef struct { Mat m_matT, m_eivec; Complex *m_eivalues; } HV;
+Index g_r, g_c, g_cover;
+static Complex nondet_Complex(void) { Complex c; c.re = nondet_Scalar(); c.im = nondet_Scalar(); return c; }
+static Complex CMK(Scalar re, Scalar im) { Complex c; c.re = re; c.im = im; return c; }
+static Complex CDIV(Complex a, Complex b) { (void)a; (void)b; return nondet_Complex(); }     /* value of a complex quotient: not modelled */
+/* M.row(i).segment(a, len) / M.col(j).segment(a, len) / M.col(j).tail(len): Eigen's block assertions; returns the length */
+static Index ROWSEG(const Mat *M, Index i, Index a, Index len)
+{ __CPROVER_assert(0 <= i && i < M->rows, "Eigen index assertion: row index in range");
+  __CPROVER_assert(0 <= a && 0 <= len && a + len <= M->cols, "Eigen block assertion: segment(start, n) within the row"); return len; }
+static Index COLSEG(const Mat *M, Index j, Index a, Index len)
+{ __CPROVER_assert(0 <= j && j < M->cols, "Eigen index assertion: column index in range");
+  __CPROVER_assert(0 <= a && 0 <= len && a + len <= M->rows, "Eigen block assertion: segment(start, n) within the column"); return len; }
+#define DOT_CHECK(l1, l2) __CPROVER_assert((l1) == (l2), "Eigen: dot product needs equal lengths")
+"""
+    def segs(b, R):
+        # statement-level rewrites of the row/column segment expressions (balanced arguments)
+        def seg_call(txt):
+            m = re.match(r"^m_matT\.(row|col)\(((?:[^()]|\([^()]*\))*)\)\.(segment|tail)\(", txt)
+            if not m:
+                raise X.ExtractionBreak("doComputeEigenvectors: cannot parse segment expression %r" % txt[:80])
+            pc = X.match_close(txt, m.end() - 1)
+            args = [a.strip() for a in X.split_top(txt[m.end():pc])]
+            kind, idx, sel = m.group(1), m.group(2), m.group(3)
+            if sel == "tail":
+                a, ln = "(E->m_matT.%s - (%s))" % ("rows" if kind == "col" else "cols", args[0]), args[0]
+            else:
+                a, ln = args
+            return "%sSEG(&E->m_matT, %s, %s, %s)" % ("ROW" if kind == "row" else "COL", idx, a, ln), txt[pc + 1:]
+        n = 0
+        # (a) norm += m_matT.row(j).segment(a, len).cwiseAbs().sum();
+        while True:
+            m1 = re.search(r"(\w+) \+= (?=m_matT\.row\()", b)
+            if not m1:
+                break
+            call, rest = seg_call(b[m1.end():])
+            if not rest.startswith(".cwiseAbs().sum();"):
+                raise X.ExtractionBreak("doComputeEigenvectors: norm statement not of the form `norm += row.segment(..).cwiseAbs().sum();`")
+            args = call[call.index("(") + 1:-1].split(", ", 1)[1]
+            new_st = "{ (void)%s; %s += NORM_ROW(&E->m_matT, %s); }" % (call, m1.group(1), args)
+            old_len = m1.end() - m1.start() + (len(b) - m1.end() - len(rest)) + len(".cwiseAbs().sum();")
+            old_txt = b[m1.start():m1.start() + old_len]
+            b = b[:m1.start()] + new_st + "\n" * old_txt.count("\n") + b[m1.start() + old_len:]
+            n += 1
+        # (b) Scalar r = m_matT.row(i).segment(..).dot(m_matT.col(n).segment(..));
+        while True:
+            m2 = re.search(r"Scalar (\w+) = (?=m_matT\.row\()", b)
+            if not m2:
+                break
+            c1, rest = seg_call(b[m2.end():])
+            if not rest.startswith(".dot("):
+                raise X.ExtractionBreak("doComputeEigenvectors: expected a dot product after the row segment")
+            c2, rest2 = seg_call(rest[len(".dot("):])
+            if not rest2.startswith(");"):
+                raise X.ExtractionBreak("doComputeEigenvectors: dot product statement tail")
+            end = len(b) - len(rest2) + 2
+            old_txt = b[m2.start():end]
+            b = b[:m2.start()] + "DOT_CHECK(%s, %s); Scalar %s = nondet_Scalar();" % (c1, c2, m2.group(1)) + "\n" * old_txt.count("\n") + b[end:]
+            n += 1
+        # (c) m_matT.col(n).tail(len) /= t;
+        while True:
+            m3 = re.search(r"(?<![\w.>(])(?=m_matT\.col\((?:[^()]|\([^()]*\))*\)\.tail\()", b)
+            if not m3:
+                break
+            c1, rest = seg_call(b[m3.start():])
+            mm = re.match(r"^ /= (\w+);", rest)
+            if not mm:
+                raise X.ExtractionBreak("doComputeEigenvectors: tail statement is not a scaling `/= t;`")
+            end = len(b) - len(rest) + mm.end()
+            old_txt = b[m3.start():end]
+            b = b[:m3.start()] + "(void)%s; (void)%s; MAT_TOUCH(E->m_matT);" % (c1, mm.group(1)) + "\n" * old_txt.count("\n") + b[end:]
+            n += 1
+        R.fired["segment-statements"] = n
+        if n < 5:
+            raise X.ExtractionBreak("doComputeEigenvectors: only %d row/column segment statements recognised (expected the norm, three dot products, one tail scaling)" % n)
+        return b
+
+    def cplx(b, R):
+        # Complex(a, b) -> CMK(a, b);  CMK(..) / CMK(..) -> CDIV(CMK(..), CMK(..))
+        b = R.call_rewrite("complex-ctor", r"(?<![\w.>:])Complex(?=\()", lambda m, a: "CMK(%s)" % ", ".join(a) if len(a) == 2 else None, b)
+        pos, n = 0, 0
+        while True:
+            k = b.find(") / CMK(", pos)
+            if k < 0:
+                break
+            # left operand: the CMK( call that ends at k
+            depth, j = 0, k
+            while j >= 0:
+                if b[j] == ")":
+                    depth += 1
+                elif b[j] == "(":
+                    depth -= 1
+                    if depth == 0:
+                        break
+                j -= 1
+            if j < 3 or b[j - 3:j] != "CMK":
+                raise X.ExtractionBreak("doComputeEigenvectors: complex quotient with an unexpected left operand")
+            r0 = k + 4
+            r1 = X.match_close(b, r0 + 3)
+            b = b[:j - 3] + "CDIV(" + b[j - 3:k + 1] + ", " + b[r0:r1 + 1] + ")" + b[r1 + 1:]
+            pos = j + 8
+            n += 1
+        R.fired["complex-quotient"] = n
+        return b
+
+    def post(b, R):
+        return cplx(b, R)
+    pre = [("eps", r"Eigen::NumTraits<Scalar>::epsilon\(\)", "SCALAR_EPS", {"max": 1}),
+           ("scalar-inits", r"\bScalar ((?:\w+\(0\)(?:,\s*)?)+);", lambda m: "Scalar " + ", ".join("%s = (Scalar)0" % x for x in re.findall(r"(\w+)\(0\)", m.group(1))) + ";", {"min": 3}),
+           ("segs", r"\A(.*)\Z", None, {})]
+    # the generic rule engine applies regex rules; the statement-level segment rewrite runs as the first step of post_fn instead
+    pre = pre[:2]
+    rules_after = [("vec-decl", r"Vector (\w+)\((\w+)\);", r"Scalar *\1 = VEC_NEW(\2);", {"max": 1}),
+                   ("backtransform", r"(\w+)\.noalias\(\) = E->m_eivec\.leftCols\(([^;]+?)\) \* COLSEG\(([^;]+)\);",
+                    r"NCOLS_CHECK(E->m_eivec, \2); __CPROVER_assert((\2) == COLSEG(\3) && VEC_SIZE(\1) == E->m_eivec.rows, @Q@Eigen: product dimensions agree@Q@); HAVOC_VEC(\1);", {"max": 1}),
+                   ("col-assign", r"E->m_eivec\.col\((\w+)\) = (\w+);", r"COL_CHECK(E->m_eivec, \1); __CPROVER_assert(VEC_SIZE(\2) == E->m_eivec.rows, @Q@Eigen: column assignment needs equal lengths@Q@); MAT_TOUCH(E->m_eivec);", {"max": 1}),
+                   ("block", r"E->m_matT\.block\(([^;]+?)\) /= (\w+);", r"BLOCK_CHECK(E->m_matT, \1); (void)\2; MAT_TOUCH(E->m_matT);", {"max": 1}),
+                   ("cols()", r"E->m_eivec\.cols\(\)", "E->m_eivec.cols", {"max": 1}),
+                   ("ev-real", r"E->m_eivalues\.coeff\(([^()]+)\)\.real\(\)", r"E->m_eivalues[\1].re", {"min": 1}),
+                   ("ev-imag", r"E->m_eivalues\.coeff\(([^()]+)\)\.imag\(\)", r"E->m_eivalues[\1].im", {"min": 1}),
+                   ("numext-real", r"Eigen::numext::real\((\w+)\)", r"(\1).re", {"min": 1}), ("numext-imag", r"Eigen::numext::imag\((\w+)\)", r"(\1).im", {"min": 1}),
+                   ("norm-cover", r"if \(norm == \(\(Scalar\)\(0\)\)\)",
+                    "__CPROVER_assert(g_cover == ((g_c >= g_r - 1) ? 1 : 0), @Q@eigenvector scale: every entry of the upper Hessenberg part of T enters the norm exactly once, nothing below it does@Q@); if (norm == ((Scalar)(0)))", {"max": 1})]
+
+    def post_all(b, R):
+        b = cplx(b, R)
+        b = R.call_rewrite("coeff", r"E->m_matT\.coeff(?:Ref)?(?=\()", lambda m, a: "(*MAT_ELEM(&E->m_matT, %s))" % ", ".join(a) if len(a) == 2 else None, b, min_fires=20)
+        return b
+    import copy
+    f2 = copy.copy(f)
+    Rtmp = X.Rules()
+    f2.body = segs(f.body, Rtmp)
+    # the backtransformation statement keeps a column segment as an operand: rewrite it to the COLSEG form before the generic rules
+    f2.body = re.sub(r"m_matT\.col\((\w+)\)\.segment\(((?:[^()]|\([^()]*\))*)\)", r"COLSEG(&E->m_matT, \1, \2)", f2.body)
+    loops = {0: "__CPROVER_assigns(j, norm, g_cover) __CPROVER_loop_invariant(0 <= j && j <= size && g_cover == ((g_r < j && g_c >= g_r - 1) ? 1 : 0)) __CPROVER_decreases(size - j)",
+             1: "__CPROVER_assigns(n, E->m_matT.cell) __CPROVER_loop_invariant(-1 <= n && n <= size - 1) __CPROVER_decreases(n + 1)",
+             2: "__CPROVER_assigns(i, l, lastr, lastw, E->m_matT.cell) __CPROVER_loop_invariant(-1 <= i && i <= n - 1 && 0 <= l && l <= n) __CPROVER_decreases(i + 1)",
+             3: "__CPROVER_assigns(i, l, lastra, lastsa, lastw, E->m_matT.cell) __CPROVER_loop_invariant(-1 <= i && i <= n - 2 && 0 <= l && l <= n) __CPROVER_decreases(i + 1)",
+             4: "__CPROVER_assigns(j, E->m_eivec.cell, __CPROVER_object_whole(m_tmp)) __CPROVER_loop_invariant(-1 <= j && j <= size - 1) __CPROVER_decreases(j + 1)"}
+    t, R = cgen.emit(f2, "doComputeEigenvectors", ret_c="void", self_type="HV", self_name="E", members=["m_matT", "m_eivec", "m_eivalues"],
+                     pre_rules=pre, extra_rules=rules_after, post_fn=post_all, loop_contracts=loops,
+                     contract="__CPROVER_assigns(E->m_matT.cell, E->m_eivec.cell, g_cover)")
+    R.fired.update(Rtmp.fired)
+    report["UpperHessenbergEigen::doComputeEigenvectors"] = R.fired
+    norm_row = r"""
+/* |row i| summed over the segment [a, a + len): coverage of the Skolem cell */
+static Scalar NORM_ROW(const Mat *M, Index i, Index a, Index len) { (void)M; if (i == g_r && a <= g_c && g_c < a + len) g_cover++; return NONNEG_SCALAR(); }
+"""
+    h = r"""
+#line 1 "harness/hesseigen.backsubst"
+void h(void) {
+  HV Ev; HV *E = &Ev; Index n = nondet_Index(); __CPROVER_assume(0 <= n && n <= NMAXS);
+  E->m_matT = MAT_NEW(n, n); E->m_eivec = MAT_NEW(n, n); E->m_eivalues = malloc(n * sizeof(Complex)); __CPROVER_assume(E->m_eivalues != NULL);
+  g_r = nondet_Index(); g_c = nondet_Index(); __CPROVER_assume(0 <= g_r && g_r < n && 0 <= g_c && g_c < n); g_cover = 0;
+  doComputeEigenvectors(E);
+  __CPROVER_assert(E->m_matT.rows == n && E->m_matT.cols == n && E->m_eivec.rows == n && E->m_eivec.cols == n, "back substitution: shapes unchanged");
+  CANARY();
+}
+"""
+    return [Group("hesseigen.backsubst", BASE + defs + norm_row + t + h, "h", enforce="doComputeEigenvectors", solver="cadical", defines=["SCALAR_FLOAT"], timeout=900,
+                  functions=[EH + ":doComputeEigenvectors"], expect_classes=["loop_invariant_step", "Eigen index assertion", "Eigen block assertion", "eigenvector scale"],
+                  note="UNBOUNDED in n, for every eigenvalue pattern: index safety and termination of the eigenvector back substitution; coverage of its scale")]
+
+
 # ------------------------------------------------------------------ UpperHessenbergSchur::compute
 def schur(report):
     f = X.locate(SH, "compute", cls="UpperHessenbergSchur")
@@ -534,7 +704,7 @@ void h(void) {
 
 def build(tier):
     report = {}
-    groups = tridiag(report) + [schur(report)] + l1_norm(report) + schur_helpers(report) + householder_kernels(tier, report)
+    groups = tridiag(report) + [schur(report)] + l1_norm(report) + eigenvectors_backsubst(report) + schur_helpers(report) + householder_kernels(tier, report)
     types, t, spec = hesseigen(report)
     h = spec.harness("h", "  HE Ev; HE *E = &Ev; E->m_n = nondet_Index(); __CPROVER_assume(0 <= E->m_n && E->m_n <= NMAXS); E->m_matT = MAT_NEW(E->m_n, E->m_n); E->kind = IVEC_NEW(E->m_n); E->m_eivalues = NULL;", "E")
     from props import skel
